@@ -38,7 +38,7 @@ fn program_module(e: &Entry) -> String {
     let mut s = String::new();
     s.push_str(emit::MODULE_PRELUDE);
     s.push_str("use e3_core::drive::{Compiled, ExecFn, run_program};\nuse simcore::{Outcome, Sim};\nuse std::sync::LazyLock;\n\n");
-    let _ = writeln!(s, "static C: LazyLock<Compiled> = LazyLock::new(|| Compiled::from_json(&[");
+    let _ = writeln!(s, "static C: LazyLock<Compiled> = LazyLock::new(|| Compiled::from_json({:?}, &[", e.name);
     for (vn, p) in &e.variants {
         let _ = writeln!(s, "    ({:?}, {}),", vn, raw_str(&p.to_json()));
     }
